@@ -96,10 +96,13 @@ class SourceFile:
         return self.src.count('\n', 0, off) + 1
 
 
-def _scope(sf, opts):
+def _scope(sf, opts, all_last=False):
+    """range of the `in=` scope; with all_last, every block matching the LAST path element (several `impl X` blocks)"""
     lo, hi = 0, len(sf.src)
+    out = [(lo, hi)]
     if opts.get('in'):
-        for mod in opts['in'].split('::'):
+        parts = opts['in'].split('::')
+        for n, mod in enumerate(parts):
             if mod.strip().startswith('impl'):
                 hits = L.find_block(sf.mask, 'impl', mod.strip()[4:].strip(), lo, hi)
             else:
@@ -107,7 +110,9 @@ def _scope(sf, opts):
             if not hits:
                 raise Undecided('lost anchor: mod %s in %s' % (mod, sf.rel))
             lo, hi = hits[0][1] + 1, hits[0][2]
-    return lo, hi
+            if n == len(parts) - 1:
+                out = [(h[1] + 1, h[2]) for h in hits]
+    return out if all_last else (lo, hi)
 
 
 def find_closures(msk, lo, hi):
@@ -300,8 +305,11 @@ class Gen:
         if not m:
             raise Undecided('template error: bad //@item %s' % rest)
         sf = self.sf(m.group(1))
-        lo, hi = _scope(sf, opts)
-        span = L.find_item(sf.mask, m.group(2), m.group(3), lo, hi)
+        span = None
+        for lo, hi in _scope(sf, opts, all_last=True):
+            span = L.find_item(sf.mask, m.group(2), m.group(3), lo, hi)
+            if span:
+                break
         if not span:
             raise Undecided('lost anchor: %s %s in %s' % (m.group(2), m.group(3), sf.rel))
         raw = sf.src[span[0]:span[1]]
